@@ -45,6 +45,11 @@ def run(ctx):
              "positions reordered at the hand-off", floor=2)
     run.rule("C14.R7", "extended loader iff overrides; extended child "
              "matcher keeps name rules and the handler list", floor=3)
+    run.rule("C14.R8", "the section type an override path descends into is "
+             "the one the loader resolved against its current schema: no "
+             "load-phase lookup in the schema's type table / component "
+             "registry goes through a snapshot taken before a %import "
+             "replaced the loader's schema (shared with C12.R8)", floor=3)
 
     EL = CM + ".ExtendedConfigLoader"
     OB = CM + ".OptionBag"
@@ -180,3 +185,8 @@ def run(ctx):
                "mixin_createChildMatcher", MM,
                "built from the base child matcher (name rules kept), same "
                "handler list")
+
+    # R8: a path component may address a section whose type a %import
+    # contributed; the bag must not consult the pre-import schema for it
+    from rules import stale
+    stale.check(ctx, "C14.R8")
